@@ -80,6 +80,25 @@ def gen_kind_case(r, maxops):
             ops.append(("satisfy",))
         elif x < 0.97:
             ops.append(("end",))
+        elif len(ops) >= 1:
+            # parameters changed on a node that has been used (coefficients derived from them must follow)
+            ov = {}
+            if kind == "River":
+                for key, vals in (("len", [F(100), F(400), F(1600)]), ("vel", [F(400), F(100), F(17280)]), ("damp", [F(0), F(1, 10), F(1, 2), F(1)]),
+                                  ("mrf", [F(0), F(2), F(5)])):
+                    if r.random() < 0.5:
+                        ov[key] = r.choice(vals)
+            else:
+                if r.random() < 0.6:
+                    ov["cap"] = cap * r.choice([F(1, 2), F(2), F(3, 4)])
+                if kind == "Groundwater":
+                    for key, vals in (("res", [F(1), F(3), F(50)]), ("thr", [F(1), F(1, 4), F(0)]), ("pct", [F(0), F(1, 2), F(1)])):
+                        if r.random() < 0.5:
+                            ov[key] = r.choice(vals)
+                if kind == "RiverReservoir" and r.random() < 0.6:
+                    ov["env"] = r.choice([F(0), F(3), F(12)])
+            if ov:
+                ops.append(("override", ov))
     if not ops:
         ops = [("distribute",)]
     c["ops"] = ops
@@ -138,6 +157,8 @@ class KindRun:
                 h.end_timestep()
                 for arc, nb in self.outs + self.ins:
                     arc.end_timestep()
+            elif k == "override":
+                h.apply_overrides({OVKEY[key]: Ex(v) for key, v in op[1].items()})
         return None
 
     def enc(self):
@@ -150,6 +171,10 @@ class KindRun:
         for arc, nb in self.ins:
             out += K.enc_arc_py(p, arc) + nb.fk.enc() + [0]
         return out
+
+
+OVKEY = {"cap": "capacity", "res": "residence_time", "thr": "infiltration_threshold", "pct": "infiltration_pct", "len": "length",
+         "vel": "velocity", "damp": "damp", "mrf": "mrf", "env": "environmental_flow"}
 
 
 def run_kind_impl(c):
@@ -178,9 +203,15 @@ def star_lit(arcs, push):
 def kind_expr(c):
     from wsimod.core import constants
     ops = []
+    cur = {key: c[key] for key in ("cap", "res", "thr", "pct", "len", "vel", "damp", "mrf", "env")}
+    if c["cls"] == "River":
+        cur["cap"] = UNBOUNDED
     for op in c["ops"]:
         k = op[0]
-        if k == "push":
+        if k == "override":
+            cur.update(op[1])
+            ops.append("KOverride " + " ".join(C.qlit(cur[key]) for key in ("cap", "res", "thr", "pct", "len", "vel", "damp", "mrf", "env")))
+        elif k == "push":
             ops.append(f"KPushSet {C.vlit(op[1])}")
         elif k == "pull":
             ops.append(f"KPullSet {C.qlit(op[1])}")
@@ -414,6 +445,13 @@ def monitor_c19(rep, n, pid="C19"):
         if c["cls"] == "River":
             c["ops"] = [("pull", r.choice([G.rand_q(r), F(3), F(8), F(20), F(200)])) if r.random() < 0.8 else r.choice([("push", K.push_amount(r, K.Part(c["adds"], c["nons"]), F(10))), ("distribute",)])
                         for _ in range(r.randint(1, 8))]
+            if ci % 4 == 2 and len(c["ops"]) >= 2:
+                # the reach is re-parameterised after it has been used, abstractions follow
+                ov = {key: r.choice(vals) for key, vals in (("len", [F(100), F(400), F(1600)]), ("vel", [F(400), F(100), F(17280)]),
+                                                            ("damp", [F(1, 10), F(1, 2), F(1)]), ("mrf", [F(2), F(5)])) if r.random() < 0.6}
+                if ov:
+                    c["ops"].insert(r.randint(1, len(c["ops"]) - 1), ("override", ov))
+                    st["re_parameterised"] = st.get("re_parameterised", 0) + 1
         else:
             c["outs"] = [a for a in c["outs"] if a["ty"] in (0, 1, 2)] or c["outs"]
             c["ops"] = [r.choice([("push", K.push_amount(r, K.Part(c["adds"], c["nons"]), c["cap"])), ("satisfy",), ("satisfy",), ("abstract",), ("end",)])
@@ -428,7 +466,10 @@ def monitor_c19(rep, n, pid="C19"):
                 with contextlib.redirect_stdout(io.StringIO()):
                     if c["cls"] == "River":
                         up = frac(h.get_connected(direction="pull", of_type=["River", "Node"])["avail"])
-                        rc = frac(h.get_riverrc())
+                        # the allowance its current parameters imply (computed here, not asked of the river)
+                        from wsimod.nodes import storage as _st
+                        kt = h.damp * (h.length / h.velocity)
+                        rc = frac(1 - kt + kt * _st.exp(-1 / kt)) if frac(kt) != 0 else F(1)
                         allow = frac(h.mrf) / rc
                         W = frac(h.tank.storage["volume"]) + up
                     else:
